@@ -94,13 +94,16 @@ def search(ctx):
 
 SPEC = {
     "id": "C13",
-    "gens": ["EvalTable", "EvalSites"],
+    "gens": ["EvalTable", "EvalSites", "PosTable"],
     "lean_modules": ["RsslVerif.Thm.C13"],
     "theorems": [T + n for n in [
         "consteval_no_panic", "tables_panic_free", "consteval_agrees", "div_mod_zero_not_constant",
         "div_mod_zero_not_constant_expr", "literal_exact", "literal_neg_exact", "positions_use_eval",
         "float_round_nearest_even", "int_to_float_nearest_even", "float_to_float_nearest_even", "float_widen_exact",
-        "float_to_int_trunc_saturate"]],
+        "float_to_int_trunc_saturate", "position_rules_as_reviewed", "position_count_agrees", "position_count_complete",
+        "position_count_rejections", "case_label_value", "const_initialiser_value", "template_argument_value",
+        "template_argument_not_converted", "lod_property_value_partial", "lod_property_refuses_valid_values",
+        "enum_values_c_semantics", "enum_rejected_only_out_of_range", "enum_no_panic"]],
     "harness": "c13",
     "nontrivial": nontrivial,
     "finding_key": finding_key,
